@@ -2,6 +2,7 @@ SPECIFICATION Spec
 CONSTANTS Family = "algebra"
           MaxEdits = 1
           UnivKinds = {"complete"}
+          GtFirst = FALSE
           WithGt = FALSE
 INVARIANT AlgebraHolds
 CHECK_DEADLOCK FALSE
